@@ -32,10 +32,10 @@ CLONE = ["CloneAsSymbol", "CloneAsFunction", "CloneAsIndexed"]
 
 
 def _c(steps, actions, names, latexes=("none",), dims=("length",), assums=("positive",), cassums=("inherit",),
-       subs=("none",), systypes=("cartesian",), batch=()):
+       subs=("none",), systypes=("cartesian",), batch=(), xsys=()):
     return dict(MaxSteps=steps, Actions=set(actions), Names=set(names), Latexes=set(latexes), DimNames=set(dims),
                 Assums=set(assums), CloneAssums=set(cassums), Subs=set(subs), SysTypes=set(systypes),
-                BatchSizes=set(batch))
+                BatchSizes=set(batch), XSysTypes=set(xsys))
 
 
 # Several configurations per tier: TLC explores ALL histories of each (the alphabets are sub-domains of the
@@ -57,6 +57,11 @@ CFG = {
         "latex3": _c(3, ["NewSymbol", "NewIndexed"] + CLONE, {"r"}, latexes=("none", "R"), subs=("none", "0")),
         # full parameter domains (3 names, 2 LaTeX names, 2 dimensions, 3 assumption sets, subscripts), depth 2
         "wide2": _c(2, ["NewSymbol", "NewIndexed"] + CLONE, {"none", "r", "T"}, dims=("one", "length"), **FULL),
+        # functions whose declared argument is a symbol / an unapplied function / an applied function, printed bare
+        "functionals3": _c(3, ["NewSymbol", "NewFunction", "NewFunctional", "CloneAsFunction"], {"r", "T"}),
+        # several experimental coordinate systems of each kind: their base scalars and base vectors are objects of
+        # their own although all systems of a kind use the same display names
+        "xsystems3": _c(3, ["NewSymbol", "NewExpSystem"], {"r"}, xsys=("xcartesian", "xcylindrical", "xspherical")),
         # counters reaching two digits + display names of which one is another one followed by digits
         # ("zq" used for the 11th time, "zq1" for the 1st): a batch of 10 equally named objects, then singles
         "digits3": _c(3, ["NewSymbol", "NewIndexed", "NewFunction", "NewQuantity", "NewBatch"], {"zq", "zq1"}, batch=(10,)),
@@ -64,6 +69,11 @@ CFG = {
         "falsefacts4": _c(4, ["NewSymbol"] + CLONE, {"r"}, assums=("noncommutative", "zerofalse", "notinteger")),
     },
     "thorough": {
+        # functions whose declared argument is a symbol / an unapplied function / an applied function, printed bare
+        "functionals3": _c(3, ["NewSymbol", "NewFunction", "NewFunctional", "CloneAsFunction"], {"r", "T"}),
+        # several experimental coordinate systems of each kind: their base scalars and base vectors are objects of
+        # their own although all systems of a kind use the same display names
+        "xsystems3": _c(3, ["NewSymbol", "NewExpSystem"], {"r"}, xsys=("xcartesian", "xcylindrical", "xspherical")),
         # counters reaching two digits + display names of which one is another one followed by digits
         # ("zq" used for the 11th time, "zq1" for the 1st): a batch of 10 equally named objects, then singles
         "digits3": _c(3, ["NewSymbol", "NewIndexed", "NewFunction", "NewQuantity", "NewBatch"], {"zq", "zq1"}, batch=(10,)),
@@ -105,7 +115,10 @@ class _Lib:
         self.sp, self.sy, self.sm, self.cs = sp, sy, sm, cs
         self.VectorSymbol, self.VectorFunction = VectorSymbol, VectorFunction
         self.code_str, self.latex_str = code_str, latex_str
-        self.dims = {"one": sy.dimensionless, "length": units.length, "time": units.time}
+        self.dims = {"one": sy.dimensionless, "length": units.length, "time": units.time, "angle": sy.angle_type}
+        from symplyphysics.core.experimental import coordinate_systems as xcs
+        self.xsys = {"xcartesian": xcs.CartesianCoordinateSystem, "xcylindrical": xcs.CylindricalCoordinateSystem,
+                     "xspherical": xcs.SphericalCoordinateSystem}
         self.qexpr = {"one": sp.Integer(2), "length": 2 * units.meter, "time": 2 * units.second}
         self.assum = {"none": {}, "positive": {"positive": True}, "real": {"real": True},
                       # false facts that no true fact implies (a clone rebuilt from the true facts only loses them)
@@ -159,6 +172,12 @@ def _create(L, st, live):
     if op == "NewQuantityVector":
         L.sy.QuantityVector([1 * L.meter, 2 * L.meter, 3 * L.meter])
         return None
+    if op == "NewFunctional":
+        src = live[st["src"] - 1]
+        return L.sy.Function(n, [src(L.arg) if st["t"] == "applied" else src], dim)
+    if op == "NewExpSystem":
+        system = L.xsys[st["t"]]()
+        return list(system.base_scalars) + list(system.args[1])      # the model's order: scalars, then vectors
     if op == "NewBatch":
         one = {"symbol": "NewSymbol", "indexed": "NewIndexed", "function": "NewFunction", "quantity": "NewQuantity"}[st["t"]]
         return [_create(L, dict(st, op=one, a=st["a"] if st["a"] in L.assum else "none"), live) for _ in range(st["k"])]
@@ -251,7 +270,7 @@ def replay_one(case):
 
 def _replay(L, case, out):
     hist, mobjs = case["h"], case["o"]
-    live, names, name_map = [], [], {}
+    live, names, name_map, declared = [], [], {}, {}
 
     def bad(clause, text):
         out.append(("violation", clause, text))
@@ -273,7 +292,29 @@ def _replay(L, case, out):
             continue
         for idx, o in enumerate(made if isinstance(made, list) else [made]):
             _check_object(L, k, st, mobjs[st["obj"] - 1 + idx], o, mobjs, live, names, name_map, translate, bad)
+            if mobjs[st["obj"] - 1 + idx]["kind"] == "function":
+                # what the bare function's declared argument must be shown as
+                if st["op"] == "NewFunctional":
+                    sm = mobjs[st["src"] - 1]
+                    shown = translate(sm["display"]) + ("(verif_arg)" if st["t"] == "applied" else "")
+                    declared[len(live) - 1] = shown if sm["explicitD"] else None
+                else:
+                    declared[len(live) - 1] = "verif_arg"
     _behaviour(L, mobjs, live, names, translate, bad, out, case)
+    # bare (unapplied) functions are printed through their declared arguments: display names there too
+    for j, shown in declared.items():
+        m, o = mobjs[j], live[j]
+        if shown is None or not m["explicitD"]:
+            continue
+        want = f"{translate(m['display'])}({shown})"
+        got = L.code_str(o)
+        if got != want or GENERATED.search(got):
+            bad("PrintsDisplayNames", f"code_str of the bare function object {j + 1} shows {got!r}, expected {want!r}")
+        got = L.latex_str(o)
+        if GENERATED.search(got) or re.search(r"(?:SYM|FUN|QTY)_\{\d+\}", got) or \
+                (m["explicitL"] and not any(f in got for f in _latex_forms(translate(m["latex"])))):
+            bad("PrintsDisplayNames", f"latex_str of the bare function object {j + 1} shows {got!r}: a generated name, "
+                                      f"or not the LaTeX name {translate(m['latex'])!r}")
 
 
 def _check_object(L, k, st, m, o, mobjs, live, names, name_map, translate, bad):
@@ -299,7 +340,7 @@ def _check_object(L, k, st, m, o, mobjs, live, names, name_map, translate, bad):
         bad("CloneKeeps.display" if st["src"] else "display",
             f"step {k + 1} {st['op']}: display name {o.display_name!r}, model {want_d!r}")
     want_l = translate(m["latex"])
-    if o.display_latex != want_l:
+    if st["op"] != "NewExpSystem" and o.display_latex != want_l:       # a system chooses the LaTeX names of its parts
         bad("CloneKeeps.latex" if st["src"] else "latex",
             f"step {k + 1} {st['op']}: LaTeX name {o.display_latex!r}, model {want_l!r}")
     # a display name that was given must never become the internal (SymPy) name
